@@ -299,3 +299,10 @@ Definition lc_cert_b (c : list gate) (S cone kept_ids : list nat) : bool :=
   && forallb (fun g => disjointb (gqs g) S) dropped
   && forallb (fun g => subsetb (gqs g) cone) kept
   && subsetb S cone.
+
+(* ---------- a FusedGate given as INPUT to Circuit.fuse ----------
+   The alphabet above has no letter for it; this is what _Queue.to_fused builds for such a gate:
+   FusedGate.from_gate calls append(gate), and append EXTENDS the member list with gate.gates
+   when gate is itself a FusedGate; the node is marked (SpecialGate) and spans all qubits. *)
+Definition node_of_fused_input (n : nat) (members : list gate) : node :=
+  mkNode (seq 0 n) members true [] [].
